@@ -242,6 +242,13 @@ class SimNet:
         if kind == "hang":
             rec["outcome"] = "hang"
             return
+        if kind == "sync-unreach":
+            # a non-blocking connect() can fail at once (no route to the network): the only synchronous connect failure
+            rec["outcome"] = "sync-unreach"
+            rec["t_end"] = self.sim.clock
+            self.sim.log("tcp_fail", sock.fd, kind)
+            sock.connect_state = None
+            raise OSError(errno.ENETUNREACH, "Network is unreachable")
         delay = pol[1] if len(pol) > 1 else 0.0
 
         def done() -> None:
@@ -294,14 +301,15 @@ class SimNet:
         delay = 0.0
         if isinstance(ans, tuple) and ans and ans[0] == "delay":
             delay, ans = ans[1], ans[2]
-        if ans == "hang" or delay:
-            fut = self.sim.loop.create_future()
-            if ans != "hang":
-                def fire() -> None:
-                    if not fut.done():
-                        fut.set_result(None)
-                self.at(self.sim.clock + delay, fire)
-            await fut
+        # the real loop.getaddrinfo always goes through the executor: it never completes synchronously, so the double
+        # always suspends for at least one loop iteration (zero virtual time unless a delay is given)
+        fut = self.sim.loop.create_future()
+        if ans != "hang":
+            def fire() -> None:
+                if not fut.done():
+                    fut.set_result(None)
+            self.at(self.sim.clock + delay, fire)
+        await fut
         if isinstance(ans, BaseException):
             raise ans
         out = []
